@@ -183,7 +183,7 @@ def main() -> int:
         "violations": len(violations),
     }
     try:
-        if not args.part:
+        if not args.part and not os.environ.get("VERIF_NO_EVIDENCE"):
             ev.write(pid, doc)
     except Exception as e:
         errors.append(f"evidence not written: {e!r}")
